@@ -89,6 +89,15 @@ pub fn gen_c17(ctx: &mut Ctx) {
         }
         ctx.op("hll.regs 2".into());
         ctx.op("hll.count 2".into());
+        // the same set split over two sketches and merged
+        ctx.op(format!("hll.new 8 {}", b));
+        ctx.op(format!("hll.new 9 {}", b));
+        for (idx, (hashed, v)) in adds.iter().enumerate() {
+            let inst = if idx % 2 == 0 { 8 } else { 9 };
+            ctx.op(format!("{} {} {}", if *hashed { "hll.addh" } else { "hll.add" }, inst, v));
+        }
+        ctx.op("hll.merge 8 9".into());
+        ctx.op("hll.regs 8".into());
         // reconstruct from registers
         ctx.op("hll.rebuild 1 3".into());
         ctx.op("hll.regs 3".into());
@@ -163,6 +172,18 @@ pub fn oracle_c17(ops: &[String], ans: &[String]) -> Vec<(usize, String)> {
                 let id: u64 = t[1].parse().unwrap();
                 if let Some((_, s)) = sets.get_mut(&id) {
                     s.clear();
+                }
+            }
+            "hll.merge" => {
+                // merging is adding the other sketch's hashes: the state stays a function of the set
+                let id: u64 = t[1].parse().unwrap();
+                let id2: u64 = t[2].parse().unwrap();
+                if a != "ok" {
+                    fails.push((i, format!("merge of equal-precision sketches answered {}", a)));
+                }
+                let other = sets.get(&id2).map(|x| x.1.clone());
+                if let (Some((_, s)), Some(o)) = (sets.get_mut(&id), other) {
+                    s.extend(o);
                 }
             }
             "hll.rebuild" => {
